@@ -32,6 +32,27 @@ pub struct CallRec {
     pub start: u64,
     pub end: u64,
     pub steps: u64,
+    /// Stale reads the caller performed inside the call.
+    pub stale: u32,
+    /// The caller's vector clock at invocation and at return.
+    pub start_vc: rt::VC,
+    pub end_vc: rt::VC,
+}
+
+impl CallRec {
+    /// `self` is ordered before `b`: program order, happens-before, or engine (real) time when
+    /// `b` read nothing stale. A call that used a stale read behaves as if it had been invoked
+    /// earlier (C11 has no real time; only happens-before constrains what it may read), so plain
+    /// engine-time order does not bind it.
+    pub fn precedes(&self, b: &CallRec) -> bool {
+        if self.tid == b.tid {
+            return self.end <= b.start;
+        }
+        if self.end_vc.0[self.tid] <= b.start_vc.0[self.tid] {
+            return true;
+        }
+        self.end <= b.start && b.stale == 0
+    }
 }
 
 #[derive(Default)]
@@ -147,7 +168,7 @@ fn linearizable(calls: &[&CallRec], init: u64) -> bool {
                 continue;
             }
             // i may be linearized next unless another pending call returned before i was invoked.
-            let blocked = (0..n).any(|j| j != i && done & (1 << j) == 0 && calls[j].end <= calls[i].start);
+            let blocked = (0..n).any(|j| j != i && done & (1 << j) == 0 && calls[j].precedes(calls[i]));
             if blocked {
                 continue;
             }
@@ -177,7 +198,7 @@ pub fn fmt_history(container: Option<u8>) -> Vec<String> {
         w.history
             .iter()
             .filter(|c| container.map(|k| k == c.container).unwrap_or(true))
-            .map(|c| format!("[{}..{}] c{} {}", c.start, c.end, c.container, fmt_call(c)))
+            .map(|c| format!("[{}..{}{}] c{} {}", c.start, c.end, if c.stale > 0 { " stale" } else { "" }, c.container, fmt_call(c)))
             .collect()
     })
 }
@@ -196,7 +217,10 @@ pub fn check_linearizable(prop: &str) {
         let calls: Vec<&CallRec> = hist.iter().filter(|c| c.container == k && c.kind != Kind::CacheLoad).collect();
         let init = *initial.get(&k).unwrap_or(&0);
         if !linearizable(&calls, init) {
-            let h: Vec<String> = calls.iter().map(|c| format!("[{}..{}] {}", c.start, c.end, fmt_call(c))).collect();
+            let h: Vec<String> = calls
+                .iter()
+                .map(|c| format!("[{}..{}{}] {}", c.start, c.end, if c.stale > 0 { " stale" } else { "" }, fmt_call(c)))
+                .collect();
             rt::violation(
                 prop,
                 "history",
